@@ -157,3 +157,18 @@ func VerifSVGColorAttr(n int) {
 	vAssert(got == want, "same colour and alpha")
 	vReach("end")
 }
+
+// VerifSVGViewBox (C10/C05): <svg viewBox="V"> with V = n bytes over { 0 1 5 space , . - }: no panic for any number of
+// values; a well-formed list of four numbers denotes the same four numbers afterwards.
+func VerifSVGViewBox(n int) {
+	v := vBytes("v", n)
+	for _, c := range v {
+		vAssume(vB2I(c == '0')+vB2I(c == '1')+vB2I(c == '5')+vB2I(c == ' ')+vB2I(c == ',')+vB2I(c == '.')+vB2I(c == '-') != 0)
+	}
+	in := append(append([]byte("<svg viewBox=\""), v...), "\" width=\"9\"/>"...)
+	w := &vWriter{}
+	err := (&Minifier{}).Minify(minify.New(), w, &vReader{b: in}, nil)
+	vOutput("out", w.buf)
+	vOutputBool("err", err != nil)
+	vReach("end")
+}
